@@ -590,8 +590,16 @@ func (s *sroa) run() int {
 					default:
 						switch r := as.Rhs[i].(type) {
 						case *ast.Ident:
-							if o := useOf(r); o == nil || o.ptr {
+							if o := useOf(r); o == nil || o.ptr || o.cell == nil {
 								b.bad = "assigned from something that is not a bundle"
+							} else {
+								// linked here as well: the right side may already have been given up
+								// (its uses are no longer visited), and that must reach this side
+								o.cell.copies = append(o.cell.copies, b.cell)
+								b.cell.copies = append(b.cell.copies, o.cell)
+								if o.bad != "" {
+									b.bad = "assigned from a variable that stays"
+								}
 							}
 						case *ast.CompositeLit:
 							if tv, ok := info.Types[r]; !ok || r.Type == nil || !types.Identical(tv.Type, b.v.Type()) {
